@@ -11,7 +11,7 @@
 EXTENDS LdpcIt_MC, Json
 
 VARIABLES seq, done
-gvars == <<pt, tab, M, unk, deg, ct, nrep, rcvd, nullderef, seq, done>>
+gvars == <<pt, tab, M, unk, deg, ct, nrep, led, rcvd, nullderef, seq, done>>
 
 GInit == Init /\ seq = <<>> /\ done = FALSE
 
@@ -29,7 +29,7 @@ Finishing ==
     /\ PrintT("BEH " \o ToJson([k |-> pt.k, r |-> pt.r, N1 |-> pt.N1, seed |-> pt.seed, seq |-> seq,
                                 avail |-> SetToSortSeq(AvailNow, LAMBDA a, b : a < b), complete |-> Complete]))
     /\ done' = TRUE
-    /\ UNCHANGED <<pt, tab, M, unk, deg, ct, nrep, rcvd, nullderef, seq>>
+    /\ UNCHANGED <<pt, tab, M, unk, deg, ct, nrep, led, rcvd, nullderef, seq>>
 
 (* one random successor per step (TLC!RandomElement): a random walk, not an enumeration *)
 GNext == Finishing \/ (~(Complete \/ Len(seq) >= N(pt) + 3) /\ GRecv(RandomElement(0 .. (N(pt) - 1))))
